@@ -14,9 +14,10 @@ PYTHONPATH=$WT/src /venv/bin/python -m pytest -q -p no:cacheprovider --timeout=9
 echo "--- demo with the change"
 PYTHONPATH=$WT/src timeout 300 /venv/bin/python demo.py > $OUT/.demo_with 2>&1; W=$?
 tail -2 $OUT/.demo_with | cut -c1-300; echo "exit $W"
-git stash -q -- src
+# (no `git stash`: the stash is shared by all worktrees of a repository)
+git checkout -q -- src
 echo "--- demo without the change"
 PYTHONPATH=$WT/src timeout 300 /venv/bin/python demo.py > $OUT/.demo_without 2>&1; WO=$?
 tail -2 $OUT/.demo_without | cut -c1-300; echo "exit $WO"
-git stash pop -q
+git apply --whitespace=nowarn $OUT/patch.diff
 grep -q "70 passed" $OUT/.suite && [ $W -ne 0 ] && [ $WO -eq 0 ] && echo "CONFIRMED $ID" || echo "NOT CONFIRMED $ID"
